@@ -49,6 +49,13 @@ Definition reach (g : graph) (srcs bads : list node) : bool :=
   | Some R => existsb (fun b => PositiveSet.mem b R) bads
   end.
 
+(* definitely reachable: the search completed and found a node of [bads] *)
+Definition reach_ok (g : graph) (srcs bads : list node) : bool :=
+  match reach_set g srcs with
+  | None => false
+  | Some R => existsb (fun b => PositiveSet.mem b R) bads
+  end.
+
 Definition mem_edge (a b : node) (l : list (node * node)) : bool :=
   existsb (fun e => Pos.eqb (fst e) a && Pos.eqb (snd e) b) l.
 
